@@ -211,25 +211,14 @@ impl PartialEq for Value {
         match (self, other) {
             (P(left), P(right)) => left == right,
             (C(List(left, _)), C(List(right, _))) => left == right,
+            // Tuples are ordered. They are equal when they have the same
+            // fields with equal values in the same order.
             (C(Tuple(left, _)), C(Tuple(right, _))) => {
-                if left.len() != right.len() {
-                    return false;
-                }
-                for (lk, lv) in left.iter() {
-                    let mut found = false;
-                    for (rk, rv) in right.iter() {
-                        if lk == rk {
-                            found = true;
-                            if lv != rv {
-                                return false;
-                            }
-                        }
-                    }
-                    if !found {
-                        return false;
-                    }
-                }
-                true
+                left.len() == right.len()
+                    && left
+                        .iter()
+                        .zip(right.iter())
+                        .all(|((lk, lv), (rk, rv))| lk == rk && lv == rv)
             }
             (F(left), F(right)) => left == right,
             (M(left), M(right)) => left == right,
